@@ -89,6 +89,9 @@ func init() {
 // recently submitted configuration and fails on symbolic attempts.
 func VerifDebouncerReload(steps int) {
 	dir := vhTempDir()
+	if !vr.Symbolic() {
+		defer os.RemoveAll(dir)
+	}
 	good, bad := dir+"/frr.conf", dir+"/verif-missing-dir/frr.conf"
 	configFileName = good
 	reload := make(chan reloadEvent)
